@@ -115,6 +115,51 @@ func checkW1(c *Ctx, r *Report) {
 		})
 	}
 	r.Floor("W1-no-store-through-input", stores, 6)
+
+	// (d): no in-place reordering of a caller-owned list: sort.Sort and its
+	// relatives permute the backing array, which every Info obtained from the
+	// same parsed configuration shares
+	sorts := 0
+	for _, fn := range pa.fns {
+		if !planner[fn] {
+			continue
+		}
+		perFn := 0
+		forEachInstr(fn, func(in ssa.Instruction) {
+			call, ok := in.(*ssa.Call)
+			if !ok {
+				return
+			}
+			o := calleeObj(call)
+			if o == nil || !inPlaceMutators[qualifiedName(o)] || len(call.Call.Args) == 0 {
+				return
+			}
+			arg := stripIface(call.Call.Args[0])
+			if ct, ok := arg.(*ssa.ChangeType); ok {
+				arg = ct.X
+			}
+			if !isContentContainer(arg.Type()) {
+				return
+			}
+			sorts++
+			perFn++
+			var bad []string
+			for o := range pa.valPts(arg) {
+				if o.input {
+					bad = append(bad, o.label)
+				}
+			}
+			sort.Strings(bad)
+			r.Check(len(bad) == 0, "W1-no-inplace-sort", fmt.Sprintf("%s#%d in %s", qualifiedName(o), perFn, c.funcKey(fn)), c.instrPos(call),
+				fmt.Sprintf("the list reordered in place may be %v: the backing array is shared with the parsed configuration and with every Info derived from it", bad))
+		})
+	}
+	r.Floor("W1-no-inplace-sort", sorts, 1)
+}
+
+var inPlaceMutators = map[string]bool{
+	"sort.Sort": true, "sort.Stable": true, "sort.Slice": true, "sort.SliceStable": true, "sort.Strings": true,
+	"slices.Sort": true, "slices.SortFunc": true, "slices.SortStableFunc": true, "slices.Reverse": true,
 }
 
 func objKey(c *Ctx, o *ptObj) string {
@@ -917,6 +962,18 @@ func checkSharedSlices(c *Ctx, r *Report) {
 func checkSharedSlicesIn(c *Ctx, r *Report, reach map[*ssa.Function]bool) int {
 	pa := newProv(c)
 	n := 0
+	// functions registered in a template FuncMap are called by the template
+	// engine with the configuration's own lists as arguments
+	tmplParam := map[string]bool{}
+	for fn := range funcMapFuncs(c) {
+		tmplParam["param:"+c.funcKey(fn)] = true
+	}
+	owned := func(o string) bool {
+		if strings.HasPrefix(o, "field:Info.") || strings.HasPrefix(o, "field:Overridables.") || strings.HasPrefix(o, "field:Config.") {
+			return true
+		}
+		return tmplParam[strings.TrimSuffix(o, " resliced")]
+	}
 	for _, fn := range sortedFuncs(c, reach) {
 		perFn := 0
 		forEachInstr(fn, func(in ssa.Instruction) {
@@ -943,7 +1000,7 @@ func checkSharedSlicesIn(c *Ctx, r *Report, reach map[*ssa.Function]bool) int {
 				perFn++
 				var bad []string
 				for o := range orig {
-					if strings.HasPrefix(o, "field:Info.") || strings.HasPrefix(o, "field:Overridables.") || strings.HasPrefix(o, "field:Config.") {
+					if owned(o) {
 						bad = append(bad, o)
 					}
 				}
@@ -960,7 +1017,7 @@ func checkSharedSlicesIn(c *Ctx, r *Report, reach map[*ssa.Function]bool) int {
 				sliceOrigins(c, pa, x.Call.Args[0], false, map[ssa.Value]bool{}, orig)
 				var bad, direct []string
 				for o := range orig {
-					if strings.HasPrefix(o, "field:Info.") || strings.HasPrefix(o, "field:Overridables.") || strings.HasPrefix(o, "field:Config.") {
+					if owned(o) {
 						if strings.HasSuffix(o, " resliced") {
 							bad = append(bad, o)
 						} else {
@@ -1143,4 +1200,30 @@ func returnsResultOf(fn, target *ssa.Function, depth int) bool {
 		}
 	}
 	return n > 0
+}
+
+// funcMapFuncs: functions stored as values of a text/template (or
+// html/template) FuncMap.
+func funcMapFuncs(c *Ctx) map[*ssa.Function]bool {
+	out := map[*ssa.Function]bool{}
+	for _, fn := range c.ModFuncs {
+		forEachInstr(fn, func(in ssa.Instruction) {
+			mu, ok := in.(*ssa.MapUpdate)
+			if !ok {
+				return
+			}
+			if !isNamed(mu.Map.Type(), "text/template", "FuncMap") && !isNamed(mu.Map.Type(), "html/template", "FuncMap") {
+				return
+			}
+			switch v := stripIface(mu.Value).(type) {
+			case *ssa.MakeClosure:
+				if f, ok := v.Fn.(*ssa.Function); ok {
+					out[f] = true
+				}
+			case *ssa.Function:
+				out[v] = true
+			}
+		})
+	}
+	return out
 }
